@@ -76,7 +76,11 @@ Inductive kind :=
 | KHooiHyp (X G : tensor F) (fs : list (tensor F))
 (* event-level trace of a parafac2 run without convergence stop: 5 = _compute_projections, 10 = inner ALS update, 2 = error computation,
    1 = cp_normalize, in the order observed, against the instrumented loop model p2_loop_tr (the 1s are ignored) *)
-| KP2Events (ls normalize : bool) (n_iter_max : nat) (observed : list nat).
+| KP2Events (ls normalize : bool) (n_iter_max : nat) (observed : list nat)
+(* one iteration of parafac on data (Model/Errors.v:parafac_iteration_error): factors before the iteration, the factors after it as the
+   answer tape of the solve oracle (each updated mode is solved once per sweep), the updated modes in order, the value reported for it.
+   The model computes every MTTKRP of the sweep itself and feeds the last one to error_calc_model. *)
+| KSweep (X : tensor F) (R : nat) (w : option (list F)) (fs_before fs_after : list (tensor F)) (ms : list nat) (rep : F).
 
 (* canonical form of an event list, applied to BOTH sides: what matters for "which iterate does an error belong to" is the order of
    the block updates, the kind and position of the error computations and the callbacks.  A normalisation is kept only where it
@@ -173,6 +177,13 @@ Definition agree_kind (k : kind) : bool :=
          (the normalisation keeps the error: C06_parafac2_rescaling_preserves_error), so the 1s are dropped *)
       let drop1 := filter (fun e => negb (Nat.eqb e 1%nat)) in
       nat_list_eqb (drop1 (p2_events ls nrm n)) (drop1 observed)
+  | KSweep X R w fs0 fs1 ms rep =>
+      let solve := fun (m : nat) (_ : tensor F) (_ : list (tensor F)) => nth m fs1 (mk [] []) in
+      let res := data_sweep Op solve X R w ms fs0 None in
+      (* the tape is consistent: after the sweep the model holds exactly the factors the implementation returned *)
+      forallb (fun k => nat_list_eqb (shape (nth k (fst res) (mk [] []))) (shape (nth k fs1 (mk [] []))) &&
+                        q_list_eqb (map toQ (data (nth k (fst res) (mk [] [])))) (map toQ (data (nth k fs1 (mk [] []))))) (seq 0 (length fs1))
+      && rel_close (parafac_iteration_error Op solve X R w ms fs0) rep
   | KHooiHyp X G fs =>
       let s := shape X in let rs := shape G in let us := matsT Op fs in
       Nat.eqb (length fs) (length s) && Nat.eqb (length rs) (length s) &&
